@@ -9,6 +9,13 @@ def clsOfName (s : String) : Option NumClass :=
 def outcomeName : Outcome → String
   | .usage => "usage" | .diag => "diag" | .report => "report" | .crash e => "crash:" ++ e.name | .nonfinite => "nonfinite"
 
+def fieldPairs : List String → List (Field × NumClass)
+  | f :: c :: r =>
+    match Field.all.find? (fun x => x.name == f), clsOfName c with
+    | some fld, some cl => (fld, cl) :: fieldPairs r
+    | _, _ => fieldPairs r
+  | _ => []
+
 def opGuard (args : List String) : String :=
   match args with
   | ["fields"] => " ".intercalate (Field.all.map Field.name)
@@ -18,13 +25,13 @@ def opGuard (args : List String) : String :=
     | _, _ => "unknown"
   | "compose" :: rest =>
     -- f1 c1 f2 c2 …  →  the outcome of main's validation when all these inputs hold these classes at once
-    let rec pairs : List String → List (Field × NumClass)
-      | f :: c :: r =>
-        match Field.all.find? (fun x => x.name == f), clsOfName c with
-        | some fld, some cl => (fld, cl) :: pairs r
-        | _, _ => pairs r
-      | _ => []
-    outcomeName (composeOutcome ((pairs rest).map fun fc => expected fc.1 fc.2))
+    outcomeName (composeOutcome ((fieldPairs rest).map fun fc => expected fc.1 fc.2))
+  | "composesel" :: optsCsv :: ng :: rest =>
+    -- result options ("-" for none given, else comma separated), `--near-field` present (0/1), f1 c1 f2 c2 …
+    let opts : List ResOpt := (if optsCsv == "-" then [] else optsCsv.splitOn ",").filterMap fun o =>
+      if o == "far-field" then some .farField else if o == "far-field-absolute" then some .farAbs
+      else if o == "near-field" then some .nearField else if o == "none" then some .none else Option.none
+    outcomeName (composeSel opts (ng == "1") (fieldPairs rest))
   | ["caught", which, e] =>
     let hs := if which == "kernel" then Pmn.Const.kernelCaught else Pmn.Const.setupCaught
     match ([Exc.ZeroDivisionError, .OverflowError, .FloatingPointError, .ArithmeticError, .ValueError,
